@@ -288,6 +288,11 @@ func Run(input string) string {
 			return "BADCASE"
 		}
 		return psimCase(t)
+	case "xfer":
+		if len(t) != 7 {
+			return "BADCASE"
+		}
+		return xferCase(t)
 	}
 	return "BADCASE"
 }
